@@ -64,6 +64,8 @@ func (Engine) Generate(prop, tier string, seed, run uint64) json.RawMessage {
 		cfg.MaxPayload = 200_000
 	}
 	cfg.Faults = r.IntN(5) != 0
+	cfg.LongGaps = r.IntN(3) == 0
+	cfg.CoarseTick = true
 	spec := netsim.Gen(r, cfg)
 	nf := len(netsim.Build(spec).Files)
 	p := Plan{Prop: prop, Seed: seed, Net: *spec, SnapEvery: 100_000}
